@@ -1,6 +1,6 @@
 (* Theory/FileGraph.v -- facts about Model/FileGraph.v (C02). *)
 From Coq Require Import List Arith Bool Lia.
-From BV Require Import Lib.Dag Theory.DagFacts Model.FileGraph.
+From BV Require Import Lib.Obs Lib.Dag Theory.DagFacts Model.FileGraph.
 Import ListNotations.
 
 (* ---- the decision table (finite domain: 2^10 * 3 rows) ----------------------- *)
@@ -114,4 +114,1069 @@ Proof.
   unfold attrs_eqb. destruct p as [n1 p1 [x c|s|]], a as [n2 p2 [y d|t|]]; cbn;
     destruct (n1 =? n2), (opt_fid_eqb p1 p2); cbn; try reflexivity;
     rewrite ?andb_true_r, ?andb_false_r; reflexivity.
+Qed.
+
+(* ---- lists ------------------------------------------------------------------------------ *)
+
+Lemma lookup_Some_In {A} f (l : list (fid * A)) x : lookup f l = Some x -> In (f, x) l.
+Proof.
+  unfold lookup. destruct (find (fun x0 => fst x0 =? f) l) as [p|] eqn:E; [|discriminate].
+  intros [= <-]. apply find_some in E as [Hin Hf]. apply Nat.eqb_eq in Hf.
+  destruct p as [f0 y]; cbn in *; subst; exact Hin.
+Qed.
+
+Lemma lookup_map {A B} (F : fid -> A -> B) f (l : list (fid * A)) :
+  lookup f (map (fun x => (fst x, F (fst x) (snd x))) l) = option_map (F f) (lookup f l).
+Proof.
+  unfold lookup, fid in *. induction l as [|x l IH]; [reflexivity|]. cbn [map find fst snd].
+  destruct (fst x =? f) eqn:E; [|exact IH].
+  apply Nat.eqb_eq in E. subst. reflexivity.
+Qed.
+
+Lemma lookup_nil {A} f : @lookup A f [] = None.
+Proof. reflexivity. Qed.
+
+Lemma In_entries_of f ts e : In e (entries_of f ts) <-> exists t, In t ts /\ lookup f t = Some e.
+Proof.
+  unfold entries_of. rewrite in_flat_map. split; intros [t [Ht H]]; exists t; split; try exact Ht.
+  - destruct (lookup f t) as [e'|]; [|contradiction]. destruct H as [->|[]]. reflexivity.
+  - rewrite H. left. reflexivity.
+Qed.
+
+Lemma entries_of_cons f t ts :
+  entries_of f (t :: ts) = (match lookup f t with Some e => [e] | None => [] end) ++ entries_of f ts.
+Proof. reflexivity. Qed.
+
+Lemma filter_all_true {A} (p : A -> bool) l : (forall x, In x l -> p x = true) -> filter p l = l.
+Proof.
+  induction l as [|x l IH]; intros H; [reflexivity|]. cbn.
+  rewrite (H x (or_introl eq_refl)), IH; [reflexivity|]. intros y Hy. apply H. right. exact Hy.
+Qed.
+
+Lemma filter_nil_all_false {A} (p : A -> bool) l : filter p l = [] -> forall x, In x l -> p x = false.
+Proof.
+  induction l as [|y l IH]; intros H x Hx; [contradiction|]. cbn in H.
+  destruct (p y) eqn:E; [discriminate|]. destruct Hx as [->|Hx]; [exact E | apply IH; assumption].
+Qed.
+
+Lemma find_In_Some {A} (p : A -> bool) l x : In x l -> p x = true -> exists y, find p l = Some y.
+Proof.
+  induction l as [|z l IH]; intros Hin Hp; [contradiction|]. cbn.
+  destruct (p z) eqn:E; [eexists; reflexivity|].
+  destruct Hin as [->|Hin]; [congruence | apply IH; assumption].
+Qed.
+
+(* ---- heads in candidate order -------------------------------------------------------------- *)
+
+Lemma In_dedup_first seen l x : In x (dedup_first seen l) <-> In x l /\ ~ In x seen.
+Proof.
+  revert seen. induction l as [|y l IH]; intros seen; cbn [dedup_first]; [cbn; tauto|].
+  destruct (memb y seen) eqn:E.
+  - apply memb_In in E. rewrite IH. cbn. split; [tauto|]. intros [[->|H] N]; [contradiction | tauto].
+  - apply memb_false in E. cbn [In]. rewrite IH. cbn [In].
+    destruct (Nat.eq_dec y x) as [->|Ne]; [tauto|]. tauto.
+Qed.
+
+Lemma In_oheads G c k :
+  In k (oheads G c) <-> In k c /\ (forall k', In k' c -> k' <> k -> is_ancestor G k k' = false).
+Proof. unfold oheads. rewrite filter_In, In_dedup_first, negb_true_iff, dominated_false. cbn. tauto. Qed.
+
+Lemma In_oheads_heads G c k : In k (oheads G c) <-> In k (heads G c).
+Proof. rewrite In_oheads, heads_spec. tauto. Qed.
+
+Lemma dominated_ext G c1 c2 k : (forall x, In x c1 <-> In x c2) -> dominated G c1 k = dominated G c2 k.
+Proof.
+  intros H. unfold dominated.
+  destruct (existsb (fun k' => negb (k' =? k) && is_ancestor G k k') c2) eqn:E2.
+  - apply existsb_exists in E2 as [x [Hx Hp]]. apply existsb_exists. exists x. split; [apply H; exact Hx | exact Hp].
+  - apply not_true_is_false. intros E1. apply existsb_exists in E1 as [x [Hx Hp]].
+    assert (X : existsb (fun k' => negb (k' =? k) && is_ancestor G k k') c2 = true).
+    { apply existsb_exists. exists x. split; [apply H; exact Hx | exact Hp]. }
+    congruence.
+Qed.
+
+Lemma oheads_nil G : oheads G [] = [].
+Proof. reflexivity. Qed.
+
+Lemma oheads_single G x : oheads G [x] = [x].
+Proof. unfold oheads, dominated. cbn. rewrite Nat.eqb_refl. reflexivity. Qed.
+
+Lemma dedup_first_filter_seen (keep : entry -> bool) (l : list entry) : forall seen,
+  (forall e, In e l -> keep e = false -> In (e_rev e) seen) ->
+  dedup_first seen (map e_rev (filter keep l)) = dedup_first seen (map e_rev l).
+Proof.
+  induction l as [|e l IH]; intros seen H; [reflexivity|]. cbn [filter map].
+  destruct (keep e) eqn:K.
+  - cbn [map dedup_first]. destruct (memb (e_rev e) seen).
+    + apply IH. intros e' He' K'. apply (H e' (or_intror He') K').
+    + f_equal. apply IH. intros e' He' K'. right. apply (H e' (or_intror He') K').
+  - cbn [dedup_first]. assert (M : memb (e_rev e) seen = true) by (apply memb_In, (H e (or_introl eq_refl) K)).
+    rewrite M. apply IH. intros e' He' K'. apply (H e' (or_intror He') K').
+Qed.
+
+(* dropping candidates equal to the first one changes nothing *)
+Lemma oheads_merged G (b : entry) (os : list entry) (keep : entry -> bool) :
+  (forall e, In e os -> keep e = false -> e_rev e = e_rev b) ->
+  oheads G (map e_rev (b :: filter keep os)) = oheads G (map e_rev (b :: os)).
+Proof.
+  intros H. unfold oheads. cbn [map dedup_first memb existsb].
+  rewrite (dedup_first_filter_seen keep os [e_rev b]).
+  - apply filter_ext. intros k. f_equal. apply dominated_ext. intros x. cbn [In].
+    rewrite !in_map_iff. split.
+    + intros [E|[e [E He]]]; [left; exact E|]. apply filter_In in He as [He _]. right. exists e. auto.
+    + intros [E|[e [E He]]]; [left; exact E|]. destruct (keep e) eqn:K.
+      * right. exists e. split; [exact E|]. apply filter_In. auto.
+      * left. rewrite <- E. symmetry. apply H; assumption.
+  - intros e He K. left. symmetry. apply H; assumption.
+Qed.
+
+(* ---- what record_iter_changes computes for one entry ------------------------------------------ *)
+
+(* The specification: P = the entries of the file in the parents (in parent
+   order).  If the versions named there have exactly one head and the entry
+   holding it has the same attributes, that entry is kept; otherwise a new
+   version is recorded whose parents are the heads. *)
+Definition spec_entry (G : dag) (new : revid) (P : list entry) (a : attrs) : entry * option (list revid) :=
+  let hs := oheads G (map e_rev P) in
+  match hs with
+  | [h] => match find (fun e => e_rev e =? h) P with
+           | Some pe => if attrs_eqb (e_attrs pe) a then (pe, None) else (mkE a new, Some hs)
+           | None => (mkE a new, Some hs)
+           end
+  | _ => (mkE a new, Some hs)
+  end.
+
+Lemma decide_eq d :
+  decide d =
+  if negb (d_changed d) && negb (d_has_merged d) then Skip
+  else if d_one_head d && d_found d
+          && (d_kind_same d && d_parent_same d && d_name_same d
+              && match d_kind d with
+                 | KFile => d_exec_same d && d_content_same d
+                 | KLink => d_content_same d
+                 | KDir => true
+                 end)
+       then Carry else New.
+Proof.
+  destruct d as [b0 b1 b2 b3 b4 b5 b6 b7 b8 b9 k]. unfold decide. cbn.
+  destruct b1, b2; cbn; try reflexivity; destruct b3, b4, b5, b6, b7, k; cbn; try reflexivity;
+    destruct b8; cbn; try reflexivity; destruct b9; reflexivity.
+Qed.
+
+(* commit_entry without the decision record *)
+Definition commit_entry_flat (c : cfg) (g : dag) (texts : list textrow) (new : revid)
+           (ptrees : list tree) (f : fid) (a : attrs) : entry * option (list revid) :=
+  let be := lookup f (hd [] ptrees) in
+  let bl := match be with Some b => [b] | None => [] end in
+  let merged := filter (fun e => negb (opt_entry_eqb be (Some e))) (entries_of f (tl ptrees)) in
+  let changed := match be with Some b => negb (attrs_eqb (e_attrs b) a) | None => true end in
+  let hs := oheads (heads_graph c g texts f) (map e_rev (bl ++ merged)) in
+  let pe := match hs with
+            | [h] => if negb (is_nil merged) then find_last (fun e => e_rev e =? h) (bl ++ merged) else None
+            | _ => None
+            end in
+  if negb changed && is_nil merged then (match be with Some b => b | None => mkE a new end, None)
+  else match pe with
+       | Some p => if attrs_eqb (e_attrs p) a then (mkE a (e_rev p), None) else (mkE a new, Some hs)
+       | None => (mkE a new, Some hs)
+       end.
+
+Lemma commit_entry_unfold c g texts new ptrees f a :
+  rich_root c || negb (is_root a) = true ->
+  commit_entry c g texts new ptrees f a = commit_entry_flat c g texts new ptrees f a.
+Proof.
+  intros R. unfold commit_entry, commit_entry_flat.
+  assert (R' : negb (rich_root c) && is_root a = false) by (destruct (rich_root c), (is_root a); cbn in *; congruence).
+  rewrite R'. cbv zeta. rewrite decide_eq. cbn [d_changed d_has_merged d_one_head d_found d_kind_same d_parent_same
+    d_name_same d_exec_same d_content_same d_kind]. rewrite negb_involutive.
+  set (be := lookup f (hd [] ptrees)).
+  set (bl := match be with Some b => [b] | None => [] end).
+  set (merged := filter (fun e => negb (opt_entry_eqb be (Some e))) (entries_of f (tl ptrees))).
+  set (hs := oheads (heads_graph c g texts f) (map e_rev (bl ++ merged))).
+  destruct (negb match be with Some b => negb (attrs_eqb (e_attrs b) a) | None => true end && is_nil merged);
+    [reflexivity|].
+  destruct hs as [|h [|h2 t]]; cbn; try reflexivity.
+  destruct (if negb (is_nil merged) then find_last (fun e => e_rev e =? h) (bl ++ merged) else None) as [p|];
+    cbn; [|reflexivity].
+  rewrite carry_checks_eq. destruct (attrs_eqb (e_attrs p) a); reflexivity.
+Qed.
+
+Lemma find_last_some {A} (p : A -> bool) l x : find_last p l = Some x -> In x l /\ p x = true.
+Proof. unfold find_last. intros H. apply find_some in H as [H1 H2]. split; [apply in_rev; exact H1 | exact H2]. Qed.
+
+Lemma find_last_In_Some {A} (p : A -> bool) l x : In x l -> p x = true -> exists y, find_last p l = Some y.
+Proof. intros H1 H2. unfold find_last. apply (find_In_Some p (rev l) x); [apply in_rev in H1; exact H1 | exact H2]. Qed.
+
+Definition same_rev_same_entry (P : list entry) : Prop :=
+  forall e1 e2, In e1 P -> In e2 P -> e_rev e1 = e_rev e2 -> e1 = e2.
+
+Lemma pick_same (L1 L2 : list entry) h a new (hs : list revid) :
+  (forall x, In x L1 -> In x L2) -> In h (map e_rev L1) -> same_rev_same_entry L2 ->
+  match find_last (fun e => e_rev e =? h) L1 with
+  | Some p => if attrs_eqb (e_attrs p) a then (mkE a (e_rev p), None) else (mkE a new, Some hs)
+  | None => (mkE a new, Some hs)
+  end =
+  match find (fun e => e_rev e =? h) L2 with
+  | Some pe => if attrs_eqb (e_attrs pe) a then (pe, None) else (mkE a new, Some hs)
+  | None => (mkE a new, Some hs)
+  end.
+Proof.
+  intros Sub Hin ID. apply in_map_iff in Hin as [x [Hx Hin]].
+  assert (Px : (fun e => e_rev e =? h) x = true) by (cbn; apply Nat.eqb_eq; exact Hx).
+  destruct (find_last_In_Some _ L1 x Hin Px) as [p1 E1].
+  destruct (find_In_Some _ L2 x (Sub x Hin) Px) as [p2 E2].
+  rewrite E1, E2. apply find_last_some in E1 as [I1 R1]. apply find_some in E2 as [I2 R2].
+  apply Nat.eqb_eq in R1, R2.
+  assert (p1 = p2) by (apply ID; [apply Sub; exact I1 | exact I2 | congruence]). subst p2.
+  destruct (attrs_eqb (e_attrs p1) a) eqn:E; [|reflexivity].
+  apply attrs_eqb_spec in E. destruct p1; cbn in *; subst; reflexivity.
+Qed.
+
+Lemma commit_entry_flat_spec c g texts new ptrees f a :
+  same_rev_same_entry (entries_of f ptrees) ->
+  commit_entry_flat c g texts new ptrees f a
+  = spec_entry (heads_graph c g texts f) new (entries_of f ptrees) a.
+Proof.
+  intros ID. unfold commit_entry_flat, spec_entry.
+  set (G := heads_graph c g texts f).
+  destruct ptrees as [|basis others]; [reflexivity|].
+  cbn [hd tl]. rewrite entries_of_cons in *. set (os := entries_of f others) in *.
+  destruct (lookup f basis) as [b|] eqn:Eb.
+  - (* the basis has the file *)
+    cbv iota. cbn [opt_entry_eqb]. set (keep := fun e => negb (entry_eqb b e)).
+    set (merged := filter keep os).
+    assert (K : forall e, In e os -> keep e = false -> e = b).
+    { intros e _ Hk. unfold keep in Hk. apply negb_false_iff, entry_eqb_spec in Hk. congruence. }
+    assert (H1 : oheads G (map e_rev ([b] ++ merged)) = oheads G (map e_rev ([b] ++ os))).
+    { apply oheads_merged. intros e He Hk. rewrite (K e He Hk). reflexivity. }
+    rewrite H1. rewrite negb_involutive.
+    destruct (is_nil merged) eqn:N.
+    + (* no other parent differs from the basis *)
+      assert (M : merged = []) by (destruct merged; [reflexivity | discriminate]).
+      rewrite <- H1, M. cbn [app map]. rewrite oheads_single. cbn [find negb].
+      rewrite Nat.eqb_refl. rewrite andb_true_r.
+      destruct (attrs_eqb (e_attrs b) a); reflexivity.
+    + rewrite andb_false_r. cbn [negb].
+      destruct (oheads G (map e_rev ([b] ++ os))) as [|h [|h2 t]] eqn:Eh; try reflexivity.
+      apply pick_same.
+      * intros x Hx. cbn [app] in *. destruct Hx as [->|Hx]; [left; reflexivity|]. right.
+        apply filter_In in Hx as [Hx _]. exact Hx.
+      * assert (X : In h (oheads G (map e_rev ([b] ++ merged)))) by (rewrite H1; left; reflexivity).
+        apply In_oheads in X as [X _]. exact X.
+      * exact ID.
+  - (* the file is not in the basis *)
+    cbv iota. cbn [opt_entry_eqb negb app].
+    assert (F : filter (fun _ : entry => true) os = os) by (apply filter_all_true; reflexivity).
+    rewrite F. cbn [andb].
+    destruct (oheads G (map e_rev os)) as [|h [|h2 t]] eqn:Eh; try reflexivity.
+    assert (X : In h (map e_rev os)).
+    { assert (X : In h (oheads G (map e_rev os))) by (rewrite Eh; left; reflexivity).
+      apply In_oheads in X as [X _]. exact X. }
+    assert (N : is_nil os = false) by (destruct os; [contradiction | reflexivity]).
+    rewrite N. cbn [negb]. apply pick_same; [auto | exact X | exact ID].
+Qed.
+
+Lemma commit_entry_spec c g texts new ptrees f a :
+  rich_root c || negb (is_root a) = true ->
+  same_rev_same_entry (entries_of f ptrees) ->
+  commit_entry c g texts new ptrees f a
+  = spec_entry (heads_graph c g texts f) new (entries_of f ptrees) a.
+Proof. intros R ID. rewrite commit_entry_unfold by exact R. apply commit_entry_flat_spec. exact ID. Qed.
+
+Lemma commit_entry_root c g texts new ptrees f a :
+  rich_root c || negb (is_root a) = false ->
+  commit_entry c g texts new ptrees f a = (mkE a new, None).
+Proof.
+  intros R. unfold commit_entry.
+  assert (R' : negb (rich_root c) && is_root a = true) by (destruct (rich_root c), (is_root a); cbn in *; congruence).
+  rewrite R'. reflexivity.
+Qed.
+
+(* ---- consequences of the specification ----------------------------------------------------------- *)
+
+Lemma spec_entry_inv G new P a e t :
+  spec_entry G new P a = (e, t) ->
+  (t = None /\ In e P /\ e_attrs e = a /\ oheads G (map e_rev P) = [e_rev e])
+  \/ (t = Some (oheads G (map e_rev P)) /\ e = mkE a new
+      /\ forall pe, In pe P -> oheads G (map e_rev P) = [e_rev pe] -> same_rev_same_entry P -> e_attrs pe <> a).
+Proof.
+  unfold spec_entry. destruct (oheads G (map e_rev P)) as [|h [|h2 tl]] eqn:Eh.
+  - intros [= <- <-]. right. repeat split. intros pe _ H. discriminate.
+  - destruct (find (fun e0 => e_rev e0 =? h) P) as [pe|] eqn:Ef.
+    + apply find_some in Ef as [Hin Hr]. apply Nat.eqb_eq in Hr.
+      destruct (attrs_eqb (e_attrs pe) a) eqn:Ea.
+      * intros [= <- <-]. left. apply attrs_eqb_spec in Ea. subst h. auto.
+      * intros [= <- <-]. right. repeat split. intros pe' Hin' [= Hh] ID.
+        assert (pe' = pe) by (apply ID; [exact Hin' | exact Hin | congruence]). subst pe'.
+        intros Ha. apply attrs_eqb_spec in Ha. congruence.
+    + intros [= <- <-]. right. repeat split. intros pe' Hin' [= Hh] _.
+      exfalso. assert (X : (fun e0 => e_rev e0 =? h) pe' = true) by (cbn; apply Nat.eqb_eq; congruence).
+      destruct (find_In_Some _ P pe' Hin' X) as [y Hy]. congruence.
+  - intros [= <- <-]. right. repeat split. intros pe _ H. discriminate.
+Qed.
+
+Lemma spec_entry_ext G1 G2 new P a :
+  oheads G1 (map e_rev P) = oheads G2 (map e_rev P) -> spec_entry G1 new P a = spec_entry G2 new P a.
+Proof. intros H. unfold spec_entry. rewrite H. reflexivity. Qed.
+
+(* ---- graphs ------------------------------------------------------------------------------------------ *)
+
+Lemma nth_app_old {A} (l : list A) x d r : r <> length l -> nth r (l ++ [x]) d = nth r l d.
+Proof.
+  intros H. destruct (Nat.lt_ge_cases r (length l)) as [L|L].
+  - apply app_nth1. exact L.
+  - rewrite !nth_overflow; [reflexivity | exact L | rewrite app_length; cbn; lia].
+Qed.
+
+Lemma nth_app_new {A} (l : list A) x d : nth (length l) (l ++ [x]) d = x.
+Proof. rewrite app_nth2 by lia. rewrite Nat.sub_diag. reflexivity. Qed.
+
+Lemma wf_from_intro n : forall rows i,
+  (forall j p, In p (nth j rows []) -> p < i + j) -> wf_from n i rows = true.
+Proof.
+  induction rows as [|ps rows IH]; intros i H; [reflexivity|]. cbn [wf_from].
+  apply andb_true_iff. split.
+  - apply forallb_forall. intros p Hp. apply orb_true_iff. left. apply Nat.ltb_lt.
+    specialize (H 0 p Hp). lia.
+  - apply IH. intros j p Hp. specialize (H (S j) p Hp). lia.
+Qed.
+
+(* a graph whose parents are all earlier revisions *)
+Lemma wf_dag_intro g : (forall r p, In p (parents g r) -> p < r) -> wf_dag g = true /\ fresh_next g = true.
+Proof.
+  intros H. split.
+  - apply wf_from_intro. intros j p Hp. apply (H j p Hp).
+  - unfold fresh_next. apply forallb_forall. intros row Hrow. apply negb_true_iff, memb_false. intros Hin.
+    apply (In_nth _ _ []) in Hrow as [i [Hi Hrow]].
+    assert (X : length g < i) by (apply H; unfold parents; rewrite Hrow; exact Hin). lia.
+Qed.
+
+Lemma oheads_extend G row cands : wf_dag G = true -> wf_dag (G ++ [row]) = true ->
+  fresh_next G = true -> (forall k, In k cands -> k <> length G) ->
+  oheads (G ++ [row]) cands = oheads G cands.
+Proof.
+  intros W W' F K. unfold oheads. apply filter_ext_in. intros k _. f_equal.
+  unfold dominated. apply existsb_ext_in. intros k' Hk'. f_equal.
+  apply (is_ancestor_extend G row k k' W W' F). apply K. exact Hk'.
+Qed.
+
+Lemma parents_file_dag texts f r :
+  parents (file_dag texts f) r = match text_parents_in texts f r with Some ps => ps | None => [] end.
+Proof.
+  unfold parents, file_dag, text_parents_in.
+  pose (F := fun row : textrow => match lookup f row with Some (Some ps) => ps | _ => @nil revid end).
+  change (nth r (map F texts) (F []) = match match lookup f (nth r texts []) with Some (Some ps) => Some ps | _ => None end
+                                       with Some ps => ps | None => [] end).
+  rewrite map_nth. unfold F. destruct (lookup f (nth r texts [])) as [[ps|]|]; reflexivity.
+Qed.
+
+Lemma file_dag_app texts row f :
+  file_dag (texts ++ [row]) f = file_dag texts f ++ [match lookup f row with Some (Some ps) => ps | _ => [] end].
+Proof. unfold file_dag. rewrite map_app. reflexivity. Qed.
+
+Lemma file_dag_length texts f : length (file_dag texts f) = length texts.
+Proof. apply map_length. Qed.
+
+Lemma fresh_id_eq g : fresh_id g = fresh_next g.
+Proof. reflexivity. Qed.
+
+(* ---- the invariant of histories built by commit / merge operations ------------------------------------ *)
+
+Record Inv (c : cfg) (h : hist) : Prop := mkInv {
+  inv_wf : wf_dag (h_g h) = true;
+  inv_lt : length (h_trees h) = length (h_g h);
+  inv_lx : length (h_texts h) = length (h_g h);
+  (* the last-changed revision is an ancestor that holds the very same entry *)
+  inv_entry : forall r f e, entry_at h r f = Some e ->
+      e_rev e <= r /\ reach (h_g h) (e_rev e) r /\ entry_at h (e_rev e) f = Some e;
+  (* every stored entry and its text parents are what the specification yields
+     from the entries of the file in the revision's parents *)
+  inv_spec : forall r f e, entry_at h r f = Some e ->
+      if rich_root c || negb (is_root (e_attrs e))
+      then spec_entry (hgraph c h f) r (parent_entries_at (h_g h) (h_trees h) f r) (e_attrs e)
+           = (e, text_parents h f r)
+      else e_rev e = r /\ text_parents h f r = None;
+  inv_notext : forall r f, entry_at h r f = None -> text_parents h f r = None;
+  inv_checker : per_file_heads c = true -> checker c h = h_texts h
+}.
+
+Lemma tree_of_overflow trees r : length trees <= r -> tree_of trees r = [].
+Proof. intros H. unfold tree_of. apply nth_overflow. exact H. Qed.
+
+Section FromInv.
+  Variables (c : cfg) (h : hist).
+  Hypothesis HI : Inv c h.
+
+  Lemma entry_present r f e : entry_at h r f = Some e -> r < length (h_g h).
+  Proof.
+    intros H. destruct (Nat.lt_ge_cases r (length (h_g h))) as [L|L]; [exact L|].
+    unfold entry_at in H. rewrite tree_of_overflow in H by (rewrite (inv_lt c h HI); exact L). discriminate.
+  Qed.
+
+  Lemma parent_entry_facts f r e : In e (parent_entries_at (h_g h) (h_trees h) f r) ->
+    exists p, In p (parents (h_g h) r) /\ entry_at h p f = Some e /\ e_rev e <= p /\ p < r
+              /\ reach (h_g h) (e_rev e) r.
+  Proof.
+    unfold parent_entries_at. intros H. apply In_entries_of in H as [t [Ht Hl]].
+    apply in_map_iff in Ht as [p [<- Hp]]. exists p.
+    assert (E : entry_at h p f = Some e) by exact Hl.
+    destruct (inv_entry c h HI p f e E) as [Le [Re _]].
+    pose proof (entry_present p f e E) as Lp.
+    destruct (wf_parents (h_g h) r p (inv_wf c h HI) Hp) as [Lt|Ge]; [|lia].
+    repeat split; try assumption.
+    eapply reach_trans; [exact Re|]. eapply reach_step; [exact Hp | apply reach_refl].
+  Qed.
+
+  Lemma pents_ID f r : same_rev_same_entry (parent_entries_at (h_g h) (h_trees h) f r).
+  Proof.
+    intros e1 e2 H1 H2 E.
+    destruct (parent_entry_facts f r e1 H1) as [p1 [_ [A1 _]]].
+    destruct (parent_entry_facts f r e2 H2) as [p2 [_ [A2 _]]].
+    destruct (inv_entry c h HI p1 f e1 A1) as [_ [_ B1]].
+    destruct (inv_entry c h HI p2 f e2 A2) as [_ [_ B2]].
+    rewrite E in B1. congruence.
+  Qed.
+
+  Lemma text_parents_spec f r ps : text_parents h f r = Some ps ->
+    ps = oheads (hgraph c h f) (parent_versions h f r)
+    /\ exists e, entry_at h r f = Some e /\ e_rev e = r /\ rich_root c || negb (is_root (e_attrs e)) = true.
+  Proof.
+    intros T. destruct (entry_at h r f) as [e|] eqn:E.
+    - pose proof (inv_spec c h HI r f e E) as S.
+      destruct (rich_root c || negb (is_root (e_attrs e))) eqn:R.
+      + rewrite T in S. apply spec_entry_inv in S as [[X _]|[X [Y _]]]; [discriminate|].
+        injection X as X. split; [exact X|]. exists e. rewrite Y. auto.
+      + destruct S as [_ S]. congruence.
+    - rewrite (inv_notext c h HI r f E) in T. discriminate.
+  Qed.
+
+  Lemma text_parents_lt f r ps p : text_parents h f r = Some ps -> In p ps ->
+    p < r /\ reach (h_g h) p r /\ exists q e, In q (parents (h_g h) r) /\ entry_at h q f = Some e /\ e_rev e = p.
+  Proof.
+    intros T Hp. apply text_parents_spec in T as [-> _].
+    apply In_oheads in Hp as [Hp _]. unfold parent_versions in Hp. apply in_map_iff in Hp as [e [<- He]].
+    destruct (parent_entry_facts f r e He) as [q [Hq [A [Le [Lt Re]]]]].
+    split; [lia|]. split; [exact Re|]. exists q, e. auto.
+  Qed.
+
+  Lemma file_dag_parent_lt f r p : In p (parents (file_dag (h_texts h) f) r) -> p < r /\ reach (h_g h) p r.
+  Proof.
+    rewrite parents_file_dag. fold (text_parents h f r).
+    destruct (text_parents h f r) as [ps|] eqn:T; [|contradiction].
+    intros Hp. destruct (text_parents_lt f r ps p T Hp) as [A [B _]]. auto.
+  Qed.
+
+  Lemma file_dag_wf f : wf_dag (file_dag (h_texts h) f) = true /\ fresh_next (file_dag (h_texts h) f) = true.
+  Proof. apply wf_dag_intro. intros r p Hp. apply (file_dag_parent_lt f r p Hp). Qed.
+
+  (* an edge of the per-file graph lies inside the ancestry of the revision graph *)
+  Lemma file_reach_global f a b : reach (file_dag (h_texts h) f) a b -> reach (h_g h) a b.
+  Proof.
+    intros H. induction H as [r | a p r Hp Hap IH]; [apply reach_refl|].
+    eapply reach_trans; [exact IH|]. apply (file_dag_parent_lt f r p Hp).
+  Qed.
+End FromInv.
+
+(* ---- one commit preserves the invariant ------------------------------------------------------------- *)
+
+Section Step.
+  Variables (c : cfg) (h : hist) (ps : list revid) (nt : newtree).
+  Hypothesis HI : Inv c h.
+  Hypothesis OK : step_ok h (ps, nt) = true.
+
+  Local Notation n := (length (h_g h)).
+  Local Notation h' := (commit_step c h ps nt).
+  Local Notation ptrees := (map (tree_of (h_trees h)) ps).
+  Local Notation ce := (commit_entry c (h_g h) (h_texts h) (length (h_g h)) (map (tree_of (h_trees h)) ps)).
+
+  Lemma ok_wf' : wf_dag (h_g h ++ [ps]) = true.
+  Proof. unfold step_ok in OK. apply andb_true_iff in OK as [A _]. exact A. Qed.
+  Lemma ok_fresh : fresh_next (h_g h) = true.
+  Proof. unfold step_ok in OK. apply andb_true_iff in OK as [_ A]. exact A. Qed.
+
+  Lemma h'_g : h_g h' = h_g h ++ [ps].
+  Proof. reflexivity. Qed.
+  Lemma h'_trees : h_trees h' = h_trees h ++ [map (fun fa => (fst fa, fst (ce (fst fa) (snd fa)))) nt].
+  Proof. unfold commit_step. cbn [h_trees]. rewrite map_map. reflexivity. Qed.
+  Lemma h'_texts : h_texts h' = h_texts h ++ [map (fun fa => (fst fa, snd (ce (fst fa) (snd fa)))) nt].
+  Proof. unfold commit_step. cbn [h_texts]. rewrite map_map. reflexivity. Qed.
+
+  Lemma ps_not_n p : In p ps -> p <> n.
+  Proof.
+    intros Hp. assert (X : In p (parents (h_g h ++ [ps]) n)) by (rewrite parents_new; exact Hp).
+    destruct (wf_parents _ _ _ ok_wf' X) as [L|L]; [lia|]. rewrite app_length in L. cbn in L. lia.
+  Qed.
+  Lemma old_parent_not_n r p : In p (parents (h_g h) r) -> p <> n.
+  Proof. intros Hp ->. apply (fresh_next_spec (h_g h) r ok_fresh Hp). Qed.
+
+  Lemma tree_of_old r : r <> n -> tree_of (h_trees h') r = tree_of (h_trees h) r.
+  Proof. intros H. rewrite h'_trees. unfold tree_of. apply nth_app_old. rewrite (inv_lt c h HI). exact H. Qed.
+
+  Lemma entry_at_old r f : r <> n -> entry_at h' r f = entry_at h r f.
+  Proof. intros H. unfold entry_at. rewrite tree_of_old by exact H. reflexivity. Qed.
+
+  Lemma entry_at_new f : entry_at h' n f = option_map (fun a => fst (ce f a)) (lookup f nt).
+  Proof.
+    unfold entry_at, tree_of. rewrite h'_trees. rewrite <- (inv_lt c h HI) at 1. rewrite nth_app_new.
+    apply (lookup_map (fun f a => fst (ce f a))).
+  Qed.
+
+  Lemma text_old r f : r <> n -> text_parents h' f r = text_parents h f r.
+  Proof.
+    intros H. unfold text_parents, text_parents_in. rewrite h'_texts.
+    rewrite nth_app_old by (rewrite (inv_lx c h HI); exact H). reflexivity.
+  Qed.
+
+  Lemma text_new f : text_parents h' f n = match lookup f nt with Some a => snd (ce f a) | None => None end.
+  Proof.
+    unfold text_parents, text_parents_in. rewrite h'_texts. rewrite <- (inv_lx c h HI) at 1. rewrite nth_app_new.
+    rewrite (lookup_map (fun f a => snd (ce f a))). destruct (lookup f nt) as [a|]; [|reflexivity].
+    cbn. destruct (snd (ce f a)); reflexivity.
+  Qed.
+
+  Lemma pents_old r f : r <> n ->
+    parent_entries_at (h_g h') (h_trees h') f r = parent_entries_at (h_g h) (h_trees h) f r.
+  Proof.
+    intros H. unfold parent_entries_at. rewrite h'_g, parents_extend by exact H. f_equal.
+    apply map_ext_in. intros p Hp. apply tree_of_old. apply (old_parent_not_n r p Hp).
+  Qed.
+
+  Lemma pents_new f : parent_entries_at (h_g h') (h_trees h') f n = entries_of f ptrees.
+  Proof.
+    unfold parent_entries_at. rewrite h'_g, parents_new. f_equal.
+    apply map_ext_in. intros p Hp. apply tree_of_old. apply (ps_not_n p Hp).
+  Qed.
+
+  Lemma ptrees_facts f e : In e (entries_of f ptrees) ->
+    exists p, In p ps /\ entry_at h p f = Some e /\ e_rev e <= p /\ p < n.
+  Proof.
+    intros H. apply In_entries_of in H as [t [Ht Hl]]. apply in_map_iff in Ht as [p [<- Hp]].
+    exists p. assert (E : entry_at h p f = Some e) by exact Hl.
+    destruct (inv_entry c h HI p f e E) as [Le _]. pose proof (entry_present c h HI p f e E). auto.
+  Qed.
+
+  Lemma ptrees_ID f : same_rev_same_entry (entries_of f ptrees).
+  Proof.
+    intros e1 e2 H1 H2 E.
+    destruct (ptrees_facts f e1 H1) as [p1 [_ [A1 _]]]. destruct (ptrees_facts f e2 H2) as [p2 [_ [A2 _]]].
+    destruct (inv_entry c h HI p1 f e1 A1) as [_ [_ B1]]. destruct (inv_entry c h HI p2 f e2 A2) as [_ [_ B2]].
+    rewrite E in B1. congruence.
+  Qed.
+
+  Lemma ce_spec f a : rich_root c || negb (is_root a) = true ->
+    ce f a = spec_entry (hgraph c h f) n (entries_of f ptrees) a.
+  Proof. intros R. apply commit_entry_spec; [exact R | apply ptrees_ID]. Qed.
+
+  Lemma ce_text_lt f a hs p : snd (ce f a) = Some hs -> In p hs -> p < n.
+  Proof.
+    intros Hs Hp. destruct (rich_root c || negb (is_root a)) eqn:R.
+    - pose proof (ce_spec f a R) as S. rewrite (surjective_pairing (ce f a)), Hs in S. symmetry in S.
+      apply spec_entry_inv in S as [[X _]|[X _]]; [discriminate|]. injection X as ->.
+      apply In_oheads in Hp as [Hp _]. apply in_map_iff in Hp as [e [<- He]].
+      destruct (ptrees_facts f e He) as [q [_ [_ [A B]]]]. lia.
+    - rewrite (commit_entry_root _ _ _ _ _ _ _ R) in Hs. discriminate.
+  Qed.
+
+  Lemma hgraph_extend f cands : (forall k, In k cands -> k < n) ->
+    oheads (hgraph c h' f) cands = oheads (hgraph c h f) cands.
+  Proof.
+    intros K. unfold hgraph, heads_graph. destruct (per_file_heads c).
+    - rewrite h'_texts, file_dag_app.
+      destruct (file_dag_wf c h HI f) as [W F].
+      assert (L : length (file_dag (h_texts h) f) = n) by (rewrite file_dag_length; apply (inv_lx c h HI)).
+      apply oheads_extend; [exact W | | exact F | intros k Hk; specialize (K k Hk); lia].
+      apply wf_dag_intro. intros r p Hp.
+      destruct (Nat.eq_dec r (length (file_dag (h_texts h) f))) as [->|Ne].
+      + rewrite parents_new in Hp. rewrite (lookup_map (fun f a => snd (ce f a))) in Hp.
+        destruct (lookup f nt) as [a|]; cbn in Hp; [|contradiction].
+        destruct (snd (ce f a)) as [hs|] eqn:Hs; [|contradiction].
+        rewrite L. apply (ce_text_lt f a hs p Hs Hp).
+      + rewrite parents_extend in Hp by exact Ne. apply (file_dag_parent_lt c h HI f r p Hp).
+    - rewrite h'_g. apply oheads_extend; [apply (inv_wf c h HI) | exact ok_wf' | exact ok_fresh|].
+      intros k Hk. specialize (K k Hk). lia.
+  Qed.
+
+  Lemma pents_lt f r e : r <= n -> In e (parent_entries_at (h_g h) (h_trees h) f r) -> e_rev e < n.
+  Proof. intros L H. destruct (parent_entry_facts c h HI f r e H) as [p [_ [_ [A [B _]]]]]. lia. Qed.
+
+  (* the entry and text of a file of the new revision *)
+  Lemma new_entry_spec f a : lookup f nt = Some a ->
+    entry_at h' n f = Some (fst (ce f a)) /\ text_parents h' f n = snd (ce f a)
+    /\ e_attrs (fst (ce f a)) = a
+    /\ (rich_root c || negb (is_root a) = true ->
+        spec_entry (hgraph c h' f) n (parent_entries_at (h_g h') (h_trees h') f n) a = ce f a)
+    /\ (rich_root c || negb (is_root a) = false -> ce f a = (mkE a n, None)).
+  Proof.
+    intros La. rewrite entry_at_new, text_new, La. cbn [option_map].
+    split; [reflexivity|]. split; [reflexivity|].
+    assert (S : rich_root c || negb (is_root a) = true ->
+                spec_entry (hgraph c h' f) n (parent_entries_at (h_g h') (h_trees h') f n) a = ce f a).
+    { intros R. rewrite pents_new, (ce_spec f a R). apply spec_entry_ext. apply hgraph_extend.
+      intros k Hk. apply in_map_iff in Hk as [e [<- He]]. destruct (ptrees_facts f e He) as [q [_ [_ [A B]]]]. lia. }
+    split; [|split; [exact S | apply commit_entry_root]].
+    destruct (rich_root c || negb (is_root a)) eqn:R.
+    - specialize (S eq_refl). rewrite (surjective_pairing (ce f a)) in S.
+      apply spec_entry_inv in S as [[_ [_ [X _]]]|[_ [X _]]]; [exact X | rewrite X; reflexivity].
+    - rewrite (commit_entry_root _ _ _ _ _ _ _ R). reflexivity.
+  Qed.
+End Step.
+
+(* ---- the checker ---------------------------------------------------------------------------------------- *)
+
+Lemma checker_upto_ext c g1 trees1 g2 trees2 k :
+  (forall r, r < k -> tree_of trees1 r = tree_of trees2 r
+                      /\ forall f, parent_entries_at g1 trees1 f r = parent_entries_at g2 trees2 f r) ->
+  checker_upto c g1 trees1 k = checker_upto c g2 trees2 k.
+Proof.
+  induction k as [|k IH]; intros H; [reflexivity|]. cbn [checker_upto].
+  rewrite IH by (intros r Hr; apply H; lia). f_equal. f_equal.
+  destruct (H k (Nat.lt_succ_diag_r k)) as [T P]. unfold checker_row. rewrite T.
+  apply map_ext. intros fe. rewrite P. reflexivity.
+Qed.
+
+Section StepInv.
+  Variables (c : cfg) (h : hist) (ps : list revid) (nt : newtree).
+  Hypothesis HI : Inv c h.
+  Hypothesis OK : step_ok h (ps, nt) = true.
+
+  Local Notation n := (length (h_g h)).
+  Local Notation h' := (commit_step c h ps nt).
+  Local Notation ce := (commit_entry c (h_g h) (h_texts h) (length (h_g h)) (map (tree_of (h_trees h)) ps)).
+
+  Lemma ce_cases f a :
+    (ce f a = (mkE a n, snd (ce f a)) /\
+     snd (ce f a) = (if rich_root c || negb (is_root a)
+                     then Some (oheads (hgraph c h f) (map e_rev (entries_of f (map (tree_of (h_trees h)) ps))))
+                     else None))
+    \/ (rich_root c || negb (is_root a) = true /\ snd (ce f a) = None /\ e_attrs (fst (ce f a)) = a
+        /\ exists p, In p ps /\ entry_at h p f = Some (fst (ce f a)) /\ e_rev (fst (ce f a)) <= p /\ p < n).
+  Proof.
+    destruct (rich_root c || negb (is_root a)) eqn:R.
+    - pose proof (ce_spec c h ps HI f a R) as S. rewrite (surjective_pairing (ce f a)) in S. symmetry in S.
+      apply spec_entry_inv in S as [[X [Y [Z _]]]|[X [Y _]]].
+      + right. split; [reflexivity|]. split; [exact X|]. split; [exact Z|]. apply (ptrees_facts c h ps HI f _ Y).
+      + left. split; [|exact X]. rewrite (surjective_pairing (ce f a)) at 1. rewrite Y. reflexivity.
+    - left. rewrite (commit_entry_root _ _ _ _ _ _ _ R). auto.
+  Qed.
+
+  Lemma checker_step : per_file_heads c = true -> checker c h' = h_texts h'.
+  Proof.
+    intros PF. unfold checker. rewrite (h'_g c h ps nt), app_length. cbn [length]. rewrite Nat.add_1_r.
+    cbn [checker_upto].
+    assert (E : checker_upto c (h_g h ++ [ps]) (h_trees h') n = h_texts h).
+    { rewrite <- (inv_checker c h HI PF). unfold checker. apply checker_upto_ext. intros r Hr.
+      split; [apply (tree_of_old c h ps nt HI); lia|].
+      intros f. apply (pents_old c h ps nt HI OK). lia. }
+    rewrite E. rewrite (h'_texts c h ps nt). f_equal. f_equal.
+    unfold checker_row. rewrite (h'_trees c h ps nt) at 1. unfold tree_of at 1.
+    rewrite <- (inv_lt c h HI) at 1. rewrite nth_app_new. rewrite map_map. apply map_ext. intros [f a]. cbn [fst snd].
+    f_equal.
+    assert (P : parent_entries_at (h_g h ++ [ps]) (h_trees h') f n = entries_of f (map (tree_of (h_trees h)) ps))
+      by (apply (pents_new c h ps nt HI OK)).
+    rewrite P.
+    assert (G : hgraph c h f = file_dag (h_texts h) f) by (unfold hgraph, heads_graph; rewrite PF; reflexivity).
+    destruct (ce_cases f a) as [[X Y]|[R [X [Y [p [_ [_ [A B]]]]]]]].
+    - rewrite X at 1 2. cbn [fst e_rev e_attrs]. rewrite Nat.eqb_refl. cbn [andb]. rewrite Y, G. reflexivity.
+    - rewrite X. assert (N : (e_rev (fst (ce f a)) =? n) = false) by (apply Nat.eqb_neq; lia).
+      rewrite N. reflexivity.
+  Qed.
+
+  Theorem step_preserves : Inv c h'.
+  Proof.
+    pose proof (ok_wf' h ps nt OK) as W'. pose proof (ok_fresh h ps nt OK) as F.
+    constructor.
+    - exact W'.
+    - rewrite (h'_trees c h ps nt), (h'_g c h ps nt), !app_length. cbn. rewrite (inv_lt c h HI). reflexivity.
+    - rewrite (h'_texts c h ps nt), (h'_g c h ps nt), !app_length. cbn. rewrite (inv_lx c h HI). reflexivity.
+    - (* inv_entry *)
+      intros r f e E. destruct (Nat.eq_dec r n) as [->|Ne].
+      + rewrite (entry_at_new c h ps nt HI) in E. destruct (lookup f nt) as [a|] eqn:La; [|discriminate].
+        cbn in E. injection E as <-.
+        destruct (ce_cases f a) as [[X _]|[_ [_ [_ [p [Hp [A [Le Lt]]]]]]]].
+        * rewrite X. cbn [fst e_rev]. split; [lia|]. split; [apply reach_refl|].
+          rewrite (entry_at_new c h ps nt HI), La. cbn. rewrite X at 1. reflexivity.
+        * destruct (inv_entry c h HI p f _ A) as [_ [Re Id]].
+          split; [lia|]. split.
+          -- eapply reach_step; [rewrite (h'_g c h ps nt), parents_new; exact Hp|].
+             rewrite (h'_g c h ps nt). apply reach_extend; [exact F | lia | exact Re].
+          -- rewrite (entry_at_old c h ps nt HI) by lia. exact Id.
+      + rewrite (entry_at_old c h ps nt HI) in E by exact Ne.
+        destruct (inv_entry c h HI r f e E) as [Le [Re Id]]. pose proof (entry_present c h HI r f e E) as Lr.
+        split; [exact Le|]. split.
+        * rewrite (h'_g c h ps nt). apply reach_extend; [exact F | exact Ne | exact Re].
+        * rewrite (entry_at_old c h ps nt HI) by lia. exact Id.
+    - (* inv_spec *)
+      intros r f e E. destruct (Nat.eq_dec r n) as [->|Ne].
+      + pose proof E as E0. rewrite (entry_at_new c h ps nt HI) in E0.
+        destruct (lookup f nt) as [a|] eqn:La; [|discriminate]. cbn in E0. injection E0 as E0.
+        destruct (new_entry_spec c h ps nt HI OK f a La) as [_ [T [At [S Rt]]]].
+        rewrite <- E0, At, T. destruct (rich_root c || negb (is_root a)) eqn:R.
+        * rewrite (S eq_refl). apply surjective_pairing.
+        * rewrite (Rt eq_refl). auto.
+      + rewrite (entry_at_old c h ps nt HI) in E by exact Ne.
+        pose proof (inv_spec c h HI r f e E) as S. pose proof (entry_present c h HI r f e E) as Lr.
+        rewrite (text_old c h ps nt HI) by exact Ne.
+        destruct (rich_root c || negb (is_root (e_attrs e))); [|exact S].
+        rewrite (pents_old c h ps nt HI OK) by exact Ne. rewrite <- S. apply spec_entry_ext.
+        apply (hgraph_extend c h ps nt HI OK). intros k Hk. apply in_map_iff in Hk as [e' [<- He']].
+        apply (pents_lt c h HI f r e'); [lia | exact He'].
+    - (* inv_notext *)
+      intros r f E. destruct (Nat.eq_dec r n) as [->|Ne].
+      + rewrite (entry_at_new c h ps nt HI) in E. rewrite (text_new c h ps nt HI).
+        destruct (lookup f nt); [discriminate | reflexivity].
+      + rewrite (entry_at_old c h ps nt HI) in E by exact Ne. rewrite (text_old c h ps nt HI) by exact Ne.
+        apply (inv_notext c h HI r f E).
+    - exact checker_step.
+  Qed.
+End StepInv.
+
+Lemma inv_empty c : Inv c empty_hist.
+Proof.
+  constructor; try reflexivity.
+  - intros r f e E. unfold entry_at, tree_of in E. cbn in E. destruct r; discriminate.
+  - intros r f e E. unfold entry_at, tree_of in E. cbn in E. destruct r; discriminate.
+  - intros r f _. unfold text_parents, text_parents_in. cbn. destruct r; reflexivity.
+Qed.
+
+Lemma run_from_inv c ops : forall h, Inv c h -> run_ok c h ops = true -> Inv c (run_from c h ops).
+Proof.
+  induction ops as [|[ps nt] ops IH]; intros h HI OK; [exact HI|].
+  cbn [run_ok fst snd] in OK. apply andb_true_iff in OK as [O1 O2].
+  unfold run_from. cbn [fold_left fst snd]. apply IH; [apply step_preserves; assumption | exact O2].
+Qed.
+
+Theorem run_inv c ops : ops_ok c ops = true -> Inv c (run c ops).
+Proof. intros H. apply run_from_inv; [apply inv_empty | exact H]. Qed.
+
+(* ---- the statements of C02 ------------------------------------------------------------------------------ *)
+
+(* the file is versioned in the per-file graph: always, except the tree root of
+   formats without rich roots *)
+Definition versioned (c : cfg) (e : entry) : bool := rich_root c || negb (is_root (e_attrs e)).
+
+Theorem text_parents_are_heads c ops : ops_ok c ops = true ->
+  let h := run c ops in
+  forall f r ps, text_parents h f r = Some ps ->
+    ps = oheads (hgraph c h f) (parent_versions h f r)
+    /\ (forall p, In p ps <-> In p (heads (hgraph c h f) (parent_versions h f r))).
+Proof.
+  intros OK h f r ps T. pose proof (run_inv c ops OK) as HI.
+  destruct (text_parents_spec c h HI f r ps T) as [E _]. split; [exact E|].
+  intros p. rewrite E. apply In_oheads_heads.
+Qed.
+
+Theorem last_changed_is_latest_change c ops : ops_ok c ops = true ->
+  let h := run c ops in
+  forall r f e, entry_at h r f = Some e ->
+    (* the named revision is an ancestor (or r itself) holding the identical entry *)
+    (e_rev e <= r /\ reach (h_g h) (e_rev e) r /\ entry_at h (e_rev e) f = Some e)
+    /\ (versioned c e = false -> e_rev e = r)
+    /\ (versioned c e = true ->
+        (* (f, last_changed) is a stored text key *)
+        text_parents h f (e_rev e) <> None
+        (* a new version is recorded only if the file is not identical to the one head of the parents' versions *)
+        /\ (e_rev e = r -> forall pe, In pe (parent_entries_at (h_g h) (h_trees h) f r) ->
+              oheads (hgraph c h f) (parent_versions h f r) = [e_rev pe] -> e_attrs pe <> e_attrs e)
+        (* otherwise the entry is the one parent entry that holds the unique head *)
+        /\ (e_rev e <> r -> In e (parent_entries_at (h_g h) (h_trees h) f r)
+                            /\ oheads (hgraph c h f) (parent_versions h f r) = [e_rev e])).
+Proof.
+  intros OK h r f e E. pose proof (run_inv c ops OK) as HI. fold h in HI.
+  pose proof (inv_entry c h HI r f e E) as [Le [Re Id]].
+  split; [auto|]. unfold versioned. split.
+  - intros V. pose proof (inv_spec c h HI r f e E) as S. rewrite V in S. apply S.
+  - intros V. split; [|split].
+    + pose proof (inv_spec c h HI (e_rev e) f e Id) as S. rewrite V in S.
+      apply spec_entry_inv in S as [[_ [X _]]|[X _]].
+      * destruct (parent_entry_facts c h HI f (e_rev e) e X) as [p [_ [_ [A [B _]]]]]. lia.
+      * rewrite X. discriminate.
+    + intros Er pe Hpe Hh. pose proof (inv_spec c h HI r f e E) as S. rewrite V in S.
+      apply spec_entry_inv in S as [[_ [X _]]|[_ [_ X]]].
+      * destruct (parent_entry_facts c h HI f r e X) as [p [_ [_ [A [B _]]]]]. lia.
+      * apply (X pe Hpe Hh). apply (pents_ID c h HI).
+    + intros Er. pose proof (inv_spec c h HI r f e E) as S. rewrite V in S.
+      apply spec_entry_inv in S as [[_ [X [_ Y]]]|[_ [X _]]]; [auto|].
+      rewrite X in Er. cbn in Er. congruence.
+Qed.
+
+(* plain commits (one parent): last-changed = this revision iff the entry differs from the parent's *)
+Corollary linear_commit c ops : ops_ok c ops = true ->
+  let h := run c ops in
+  forall r p f e, parents (h_g h) r = [p] -> entry_at h r f = Some e -> versioned c e = true ->
+    (e_rev e = r <-> forall pe, entry_at h p f = Some pe -> e_attrs pe <> e_attrs e).
+Proof.
+  intros OK h r p f e Hp E V.
+  destruct (last_changed_is_latest_change c ops OK r f e E) as [_ [_ L]]. fold h in L.
+  destruct (L V) as [_ [D C]].
+  assert (P : parent_entries_at (h_g h) (h_trees h) f r
+              = match entry_at h p f with Some pe => [pe] | None => [] end).
+  { unfold parent_entries_at. rewrite Hp. cbn. rewrite app_nil_r. reflexivity. }
+  split.
+  - intros Er pe Hpe. apply (D Er pe).
+    + rewrite P, Hpe. left. reflexivity.
+    + unfold parent_versions. rewrite P, Hpe. cbn [map]. apply oheads_single.
+  - intros H. destruct (Nat.eq_dec (e_rev e) r) as [Er|Ne]; [exact Er|]. exfalso.
+    destruct (C Ne) as [X _]. rewrite P in X. destruct (entry_at h p f) as [pe|] eqn:Ep; [|contradiction].
+    destruct X as [->|[]]. apply (H e eq_refl). reflexivity.
+Qed.
+
+Lemma list_eqb_nat_refl l : list_eqb Nat.eqb l l = true.
+Proof. apply list_eqb_refl. apply Nat.eqb_refl. Qed.
+
+Lemma filter_combine_same (row : textrow) :
+  filter (fun p : (fid * option (list revid)) * (fid * option (list revid)) =>
+            negb (opt_list_eqb (snd (fst p)) (snd (snd p)))) (combine row row) = [].
+Proof.
+  induction row as [|[f o] row IH]; [reflexivity|]. cbn [combine filter fst snd].
+  assert (R : opt_list_eqb o o = true) by (destruct o; cbn; [apply list_eqb_nat_refl | reflexivity]).
+  rewrite R. exact IH.
+Qed.
+
+Lemma inconsistent_zero c h : checker c h = h_texts h -> inconsistent c h = 0.
+Proof.
+  intros E. unfold inconsistent. rewrite E. clear E.
+  induction (h_texts h) as [|row l IH]; [reflexivity|].
+  cbn [combine flat_map fst snd]. rewrite filter_app, filter_combine_same. exact IH.
+Qed.
+
+(* with per-file heads (PackCommitBuilder) the checker finds nothing to complain about *)
+Theorem checker_agrees c ops : per_file_heads c = true -> ops_ok c ops = true ->
+  checker c (run c ops) = h_texts (run c ops) /\ inconsistent c (run c ops) = 0.
+Proof.
+  intros PF OK. pose proof (inv_checker c _ (run_inv c ops OK) PF) as E. split; [exact E | apply inconsistent_zero, E].
+Qed.
+
+(* every head in the revision graph is a head in the per-file graph: revision-graph
+   heads can only lose parents, never invent them *)
+Theorem global_heads_subset_file_heads c ops : ops_ok c ops = true ->
+  let h := run c ops in
+  forall f cands x, In x (oheads (h_g h) cands) -> In x (oheads (file_dag (h_texts h) f) cands).
+Proof.
+  intros OK h f cands x Hx. pose proof (run_inv c ops OK) as HI. fold h in HI.
+  apply In_oheads in Hx as [Hin Hd]. apply In_oheads. split; [exact Hin|].
+  intros k' Hk' Ne. specialize (Hd k' Hk' Ne).
+  destruct (is_ancestor (file_dag (h_texts h) f) x k') eqn:A; [|reflexivity].
+  destruct (file_dag_wf c h HI f) as [W _].
+  apply is_ancestor_spec in A; [|exact W]. apply (file_reach_global c h HI) in A.
+  apply is_ancestor_spec in A; [|apply (inv_wf c h HI)]. congruence.
+Qed.
+
+(* ---- revision-graph heads (VersionedFileCommitBuilder._heads) -------------------------------------------- *)
+
+(* head_candidates of record_iter_changes for file f *)
+Definition cands_of (ptrees : list tree) (f : fid) : list revid :=
+  let be := lookup f (hd [] ptrees) in
+  let bl := match be with Some b => [b] | None => [] end in
+  map e_rev (bl ++ filter (fun e => negb (opt_entry_eqb be (Some e))) (entries_of f (tl ptrees))).
+
+(* executable guard: at every commit, for every file, the heads of the candidates
+   in the revision graph are their heads in the per-file graph *)
+Definition heads_agree_step (h : hist) (o : op) : bool :=
+  let ptrees := map (tree_of (h_trees h)) (fst o) in
+  forallb (fun fa => list_eqb Nat.eqb (oheads (h_g h) (cands_of ptrees (fst fa)))
+                                      (oheads (file_dag (h_texts h) (fst fa)) (cands_of ptrees (fst fa))))
+          (snd o).
+Fixpoint heads_agree_from (c : cfg) (h : hist) (ops : list op) : bool :=
+  match ops with
+  | [] => true
+  | o :: r => heads_agree_step h o && heads_agree_from c (commit_step c h (fst o) (snd o)) r
+  end.
+Definition heads_agree (c : cfg) (ops : list op) : bool := heads_agree_from c empty_hist ops.
+
+Lemma list_eqb_nat_eq : forall a b, list_eqb Nat.eqb a b = true -> a = b.
+Proof.
+  induction a as [|x a IH]; intros [|y b] H; cbn in H; try discriminate; [reflexivity|].
+  apply andb_true_iff in H as [H1 H2]. apply Nat.eqb_eq in H1. subst. f_equal. apply IH. exact H2.
+Qed.
+
+Lemma commit_entry_heads_ext c1 c2 g texts new ptrees f a :
+  rich_root c1 = rich_root c2 ->
+  oheads (heads_graph c1 g texts f) (cands_of ptrees f) = oheads (heads_graph c2 g texts f) (cands_of ptrees f) ->
+  commit_entry c1 g texts new ptrees f a = commit_entry c2 g texts new ptrees f a.
+Proof.
+  unfold commit_entry, cands_of. intros R H. rewrite R. cbv zeta in *. rewrite H. reflexivity.
+Qed.
+
+Lemma commit_step_agree rich h ps nt : heads_agree_step h (ps, nt) = true ->
+  commit_step (mkCfg false rich) h ps nt = commit_step (mkCfg true rich) h ps nt.
+Proof.
+  intros A. unfold heads_agree_step in A. cbn [fst snd] in A. rewrite forallb_forall in A.
+  unfold commit_step. cbv zeta.
+  assert (E : map (fun fa => (fst fa, commit_entry (mkCfg false rich) (h_g h) (h_texts h) (length (h_g h))
+                                     (map (tree_of (h_trees h)) ps) (fst fa) (snd fa))) nt
+            = map (fun fa => (fst fa, commit_entry (mkCfg true rich) (h_g h) (h_texts h) (length (h_g h))
+                                     (map (tree_of (h_trees h)) ps) (fst fa) (snd fa))) nt).
+  { apply map_ext_in. intros fa Hfa. f_equal. apply commit_entry_heads_ext; [reflexivity|].
+    unfold heads_graph. cbn [per_file_heads]. apply list_eqb_nat_eq, A, Hfa. }
+  rewrite E. reflexivity.
+Qed.
+
+Lemma run_from_agree rich ops : forall h, heads_agree_from (mkCfg false rich) h ops = true ->
+  run_from (mkCfg false rich) h ops = run_from (mkCfg true rich) h ops.
+Proof.
+  induction ops as [|[ps nt] ops IH]; intros h A; [reflexivity|].
+  cbn [heads_agree_from fst snd] in A. apply andb_true_iff in A as [A1 A2].
+  unfold run_from in *. cbn [fold_left fst snd].
+  rewrite <- (commit_step_agree rich h ps nt A1). apply IH. exact A2.
+Qed.
+
+Lemma run_ok_cfg c1 c2 ops : forall h1 h2, h_g h1 = h_g h2 -> run_ok c1 h1 ops = run_ok c2 h2 ops.
+Proof.
+  induction ops as [|[ps nt] ops IH]; intros h1 h2 E; [reflexivity|].
+  cbn [run_ok fst snd]. unfold step_ok. cbn [fst]. rewrite E. f_equal. apply IH. cbn. rewrite E. reflexivity.
+Qed.
+
+Lemma checker_cfg c1 c2 g trees k : rich_root c1 = rich_root c2 ->
+  checker_upto c1 g trees k = checker_upto c2 g trees k.
+Proof.
+  intros R. induction k as [|k IH]; [reflexivity|]. cbn [checker_upto]. rewrite IH. f_equal. f_equal.
+  unfold checker_row. rewrite R. reflexivity.
+Qed.
+
+Theorem checker_agrees_global_guarded rich ops :
+  let c := mkCfg false rich in
+  ops_ok c ops = true -> heads_agree c ops = true ->
+  checker c (run c ops) = h_texts (run c ops) /\ inconsistent c (run c ops) = 0.
+Proof.
+  intros c OK A. subst c.
+  set (c := mkCfg false rich) in *.
+  assert (E : checker c (run c ops) = h_texts (run c ops)).
+  { unfold run, c. rewrite (run_from_agree rich ops empty_hist A).
+    assert (OK' : ops_ok (mkCfg true rich) ops = true).
+    { unfold ops_ok in *. rewrite <- OK. apply run_ok_cfg. reflexivity. }
+    destruct (checker_agrees (mkCfg true rich) ops eq_refl OK') as [X _].
+    unfold run in X. rewrite <- X. unfold checker. apply checker_cfg. reflexivity. }
+  split; [exact E | apply inconsistent_zero, E].
+Qed.
+
+(* ---- witnesses --------------------------------------------------------------------------------------------- *)
+
+Definition ROOT : fid * attrs := (0, mkA 0 None PDir).
+Definition FILE (f : fid) (content : nat) : fid * attrs := (f, mkA 0 (Some 0) (PFile false content)).
+
+(* 0 adds file 3; 1 modifies it; 2 deletes it; 3 re-adds it with the same id; 4 (child of 1)
+   keeps 1's version; 5 = merge(3, 4), 6 = merge(4, 3).  The versions 3 and 1 of the file are
+   both heads of the per-file graph, but 1 is an ancestor of 3 in the revision graph. *)
+Definition readd_ops : list op :=
+  [ ([], [ROOT; FILE 3 0]); ([0], [ROOT; FILE 3 1]); ([1], [ROOT]); ([2], [ROOT; FILE 3 2]);
+    ([1], [ROOT; FILE 3 1; FILE 4 0]); ([3; 4], [ROOT; FILE 3 2; FILE 4 0]); ([4; 3], [ROOT; FILE 3 1; FILE 4 0]) ].
+
+Theorem checker_global_refuted : forall rich,
+  let c := mkCfg false rich in
+  exists ops, ops_ok c ops = true /\ heads_agree c ops = false
+              /\ inconsistent c (run c ops) <> 0
+              /\ text_parents (run c ops) 3 6 = Some [3]
+              /\ text_parents_in (checker c (run c ops)) 3 6 = Some [1; 3].
+Proof.
+  intros rich c. exists readd_ops. subst c.
+  destruct rich; vm_compute; (split; [reflexivity|]); (split; [reflexivity|]); (split; [discriminate|]); split; reflexivity.
+Qed.
+
+(* identical parallel change: 1 and 2 both change file 3 to content 1; 3 merges them *)
+Definition parallel_ops : list op :=
+  [ ([], [ROOT; FILE 3 0]); ([0], [ROOT; FILE 3 1]); ([0], [ROOT; FILE 3 1]); ([1; 2], [ROOT; FILE 3 1]) ].
+
+(* the literal reading "last changed = a revision in which the file changed" is false:
+   revision 3 records a new version of file 3 (a per-file merge node with parents [1; 2])
+   although the file is identical in every parent *)
+Theorem last_changed_literal_refuted :
+  let c := mkCfg true true in
+  exists ops r f e, ops_ok c ops = true /\ entry_at (run c ops) r f = Some e /\ e_rev e = r
+    /\ parents (h_g (run c ops)) r <> []
+    /\ (forall p, In p (parents (h_g (run c ops)) r) ->
+          exists pe, entry_at (run c ops) p f = Some pe /\ e_attrs pe = e_attrs e)
+    /\ text_parents (run c ops) f r = Some [1; 2].
+Proof.
+  cbv zeta. exists parallel_ops, 3, 3, (mkE (snd (FILE 3 1)) 3).
+  split; [reflexivity|]. split; [reflexivity|]. split; [reflexivity|]. split; [vm_compute; discriminate|].
+  split; [|reflexivity].
+  intros p Hp. vm_compute in Hp. destruct Hp as [<-|[<-|[]]]; eexists; split; reflexivity.
+Qed.
+
+(* criss-cross: 1 and 2 change file 3 differently, 3 = merge(1,2) keeps 1's, 4 = merge(2,1) keeps 2's,
+   5 = merge(3,4) keeps 3's: both resolutions are carried over, the final merge is a per-file merge node *)
+Definition crisscross_ops : list op :=
+  [ ([], [ROOT; FILE 3 0]); ([0], [ROOT; FILE 3 1]); ([0], [ROOT; FILE 3 2]);
+    ([1; 2], [ROOT; FILE 3 1]); ([2; 1], [ROOT; FILE 3 2]); ([3; 4], [ROOT; FILE 3 1]) ].
+Example ex_crisscross :
+  let h := run (mkCfg true true) crisscross_ops in
+  ops_ok (mkCfg true true) crisscross_ops = true
+  /\ map (fun r => option_map e_rev (entry_at h r 3)) [0; 1; 2; 3; 4; 5] = [Some 0; Some 1; Some 2; Some 3; Some 4; Some 5]
+  /\ text_parents h 3 3 = Some [1; 2] /\ text_parents h 3 4 = Some [2; 1] /\ text_parents h 3 5 = Some [3; 4]
+  /\ inconsistent (mkCfg true true) h = 0.
+Proof. vm_compute. repeat split. Qed.
+
+(* revert after merge and take-other: 1 changes file 4, 2 changes file 3; 3 = merge(1,2) reverts file 3 to
+   the left side (new version with parent [2]? no: the left version 0 is dominated by 2, content differs from 2:
+   new version, parent 2); 4 = merge(1,2) takes 2's file 3 (carried over: last changed 2) *)
+Definition revert_ops : list op :=
+  [ ([], [ROOT; FILE 3 0; FILE 4 0]); ([0], [ROOT; FILE 3 0; FILE 4 1]); ([0], [ROOT; FILE 3 2; FILE 4 0]);
+    ([1; 2], [ROOT; FILE 3 0; FILE 4 1]); ([1; 2], [ROOT; FILE 3 2; FILE 4 1]) ].
+Example ex_revert_after_merge :
+  let h := run (mkCfg true true) revert_ops in
+  ops_ok (mkCfg true true) revert_ops = true
+  /\ option_map e_rev (entry_at h 3 3) = Some 3 /\ text_parents h 3 3 = Some [2]
+  /\ option_map e_rev (entry_at h 4 3) = Some 2 /\ text_parents h 3 4 = None
+  /\ option_map e_rev (entry_at h 3 4) = Some 1 /\ option_map e_rev (entry_at h 4 4) = Some 1.
+Proof. vm_compute. repeat split. Qed.
+
+(* kind change and rename: 1 turns file 3 into a symlink, 2 renames it; the merge 3 takes both: new version
+   with both parents; 4 = merge(2,1) keeps 2's entry unchanged: still a new per-file merge node *)
+Definition kind_ops : list op :=
+  [ ([], [ROOT; FILE 3 0]); ([0], [ROOT; (3, mkA 0 (Some 0) (PLink 0))]); ([0], [ROOT; (3, mkA 1 (Some 0) (PFile false 0))]);
+    ([1; 2], [ROOT; (3, mkA 1 (Some 0) (PLink 0))]); ([2; 1], [ROOT; (3, mkA 1 (Some 0) (PFile false 0))]) ].
+Example ex_kind_change :
+  let h := run (mkCfg true true) kind_ops in
+  ops_ok (mkCfg true true) kind_ops = true
+  /\ text_parents h 3 3 = Some [1; 2] /\ text_parents h 3 4 = Some [2; 1]
+  /\ option_map e_rev (entry_at h 4 3) = Some 4.
+Proof. vm_compute. repeat split. Qed.
+
+(* the unversioned root of non-rich-root formats *)
+Example ex_plain_root :
+  let h := run (mkCfg true false) parallel_ops in
+  map (fun r => option_map e_rev (entry_at h r 0)) [0; 1; 2; 3] = [Some 0; Some 1; Some 2; Some 3]
+  /\ map (text_parents h 0) [0; 1; 2; 3] = [None; None; None; None].
+Proof. vm_compute. repeat split. Qed.
+Example ex_rich_root :
+  let h := run (mkCfg true true) parallel_ops in
+  map (fun r => option_map e_rev (entry_at h r 0)) [0; 1; 2; 3] = [Some 0; Some 0; Some 0; Some 0]
+  /\ map (text_parents h 0) [0; 1; 2; 3] = [Some []; None; None; None].
+Proof. vm_compute. repeat split. Qed.
+
+(* ---- the decision table, in propositional form ---------------------------------------------------------- *)
+
+Theorem decision_table_props :
+  forall d : dec,
+    (decide d = Carry ->
+       d_one_head d = true /\ d_found d = true /\ d_kind_same d = true /\ d_parent_same d = true
+       /\ d_name_same d = true
+       /\ (d_kind d = KFile -> d_exec_same d = true /\ d_content_same d = true)
+       /\ (d_kind d = KLink -> d_content_same d = true))
+    /\ (decide d = Skip <-> d_changed d = false /\ d_has_merged d = false)
+    /\ ((d_changed d = true \/ d_has_merged d = true) -> (d_one_head d = false \/ d_found d = false) -> decide d = New)
+    /\ decide (mkDec (negb (d_in_basis d)) (d_changed d) (d_has_merged d) (d_one_head d) (d_found d) (d_kind_same d)
+                     (d_parent_same d) (d_name_same d) (d_exec_same d) (d_content_same d) (d_kind d)) = decide d.
+Proof.
+  intros d. destruct (decision_table d) as [H1 [H2 [_ [H4 H5]]]].
+  split; [|split; [|split]].
+  - intros Hc. unfold dec_carry_sound in H1. rewrite Hc in H1.
+    apply andb_true_iff in H1 as [H1 _]. apply andb_true_iff in H1 as [H1 Hk].
+    apply andb_true_iff in H1 as [H1 Hn]. apply andb_true_iff in H1 as [H1 Hp].
+    apply andb_true_iff in H1 as [H1 Hks]. apply andb_true_iff in H1 as [Ho Hf].
+    split; [exact Ho|]. split; [exact Hf|]. split; [exact Hks|]. split; [exact Hp|]. split; [exact Hn|].
+    split; intros K; rewrite K in Hk; [apply andb_true_iff in Hk; exact Hk | exact Hk].
+  - unfold dec_skip_iff in H2. apply eqb_prop in H2.
+    destruct (decide d), (d_changed d), (d_has_merged d); cbn in H2; split; intros X; try discriminate;
+      try (destruct X; discriminate); auto.
+  - intros A B. unfold dec_merge_forces_new in H4.
+    assert (X : (d_changed d || d_has_merged d) && (negb (d_one_head d) || negb (d_found d)) = true).
+    { apply andb_true_iff. split.
+      - destruct A as [-> | ->]; [reflexivity | apply orb_true_r].
+      - destruct B as [-> | ->]; [reflexivity | apply orb_true_r]. }
+    rewrite X in H4. destruct (decide d); [discriminate | discriminate | reflexivity].
+  - unfold dec_irrelevant in H5. apply andb_true_iff in H5 as [H5 _]. apply andb_true_iff in H5 as [H5 _].
+    destruct (decide d), (decide (mkDec (negb (d_in_basis d)) (d_changed d) (d_has_merged d) (d_one_head d) (d_found d)
+                                        (d_kind_same d) (d_parent_same d) (d_name_same d) (d_exec_same d)
+                                        (d_content_same d) (d_kind d))); try discriminate; reflexivity.
 Qed.
